@@ -28,6 +28,8 @@ import (
 	"syscall"
 	"time"
 
+	"golang.org/x/sys/unix"
+
 	"verif/harness/internal/vd"
 )
 
@@ -64,6 +66,7 @@ var (
 	profile   = flag.String("profile", "cache", "cache (C17) | profile (C18) | overlap (C18, overlapping flag sets)")
 	replay    = flag.String("replay", "", "replay the cases of this file (lines `request: vprof:<profile>: {json}`)")
 	keep      = flag.Bool("keep", false, "keep the run directory")
+	verbose   = flag.Bool("v", false, "print the stderr of every profiler process")
 )
 
 // the uid/gid the profiler runs under: no passwd entry, so user.Current() uses $HOME
@@ -205,13 +208,34 @@ type procResult struct {
 // runProfiler starts the profiler with a private HOME and PATH.  If killAt >= 0 the process group
 // is killed as soon as the fake tool reports chunk boundary killAt.
 func (e *env) runProfiler(home, path, ctl string, args []string, killAt int) procResult {
-	cmd := exec.Command(e.profiler, args...)
+	return e.runBinary(e.profiler, nil, home, path, ctl, args, killAt, -1)
+}
+
+// runBinary: as runProfiler for any binary; fsize >= 0 limits the size of the files the process may
+// write (soft RLIMIT_FSIZE, inherited from the harness, which lowers its own soft limit around the
+// fork): the write(2) that crosses the limit fails with EFBIG (the Go runtime ignores SIGXFSZ).
+// stdout and stderr of the child are pipes, so only the cache files are affected.
+func (e *env) runBinary(binary string, extraEnv []string, home, path, ctl string, args []string, killAt int, fsize int64) procResult {
+	cmd := exec.Command(binary, args...)
 	cmd.Dir = e.dir
-	cmd.Env = []string{"HOME=" + home, "USER=vprof", "PATH=" + path, "VPROF_CTL=" + ctl, "TMPDIR=" + e.dir}
+	cmd.Env = append([]string{"HOME=" + home, "USER=vprof", "PATH=" + path, "VPROF_CTL=" + ctl, "TMPDIR=" + e.dir}, extraEnv...)
 	cmd.SysProcAttr = &syscall.SysProcAttr{Setpgid: true, Credential: &syscall.Credential{Uid: runUID, Gid: runUID}}
 	var so, se strings.Builder
 	cmd.Stdout, cmd.Stderr = &so, &se
-	if err := cmd.Start(); err != nil {
+	var old unix.Rlimit
+	if fsize >= 0 {
+		if err := unix.Getrlimit(unix.RLIMIT_FSIZE, &old); err != nil {
+			return procResult{Status: "err", Stderr: "getrlimit: " + err.Error()}
+		}
+		if err := unix.Setrlimit(unix.RLIMIT_FSIZE, &unix.Rlimit{Cur: uint64(fsize), Max: old.Max}); err != nil {
+			return procResult{Status: "err", Stderr: "setrlimit: " + err.Error()}
+		}
+	}
+	err := cmd.Start()
+	if fsize >= 0 {
+		unix.Setrlimit(unix.RLIMIT_FSIZE, &old)
+	}
+	if err != nil {
 		return procResult{Status: "err", Stderr: "start: " + err.Error()}
 	}
 	done := make(chan error, 1)
@@ -229,6 +253,9 @@ func (e *env) runProfiler(home, path, ctl string, args []string, killAt int) pro
 		case err := <-done:
 			// whatever is left of the process group (the fake tool after a kill)
 			syscall.Kill(-cmd.Process.Pid, syscall.SIGKILL)
+			if *verbose {
+				fmt.Fprintf(os.Stderr, "--- %s %v (killAt %d, fsize %d)\n%s", filepath.Base(binary), args, killAt, fsize, se.String())
+			}
 			st := "ok"
 			if killed {
 				st = "dead"
@@ -237,7 +264,7 @@ func (e *env) runProfiler(home, path, ctl string, args []string, killAt int) pro
 			}
 			return procResult{Status: st, Stdout: so.String(), Stderr: se.String()}
 		case <-tick:
-			if !killed {
+			if killAt >= 0 && !killed {
 				if _, err := os.Stat(filepath.Join(ctl, fmt.Sprintf("at.%d", killAt))); err == nil {
 					// give the profiler's copy loop a moment to move what was printed so far
 					time.Sleep(4 * time.Millisecond)
